@@ -605,3 +605,94 @@ func runNoFilter(seed int64, nconn, ms int) string {
 	time.Sleep(20 * time.Millisecond)
 	return `{"NF":"ok","Transfers":` + strconv.FormatInt(transfers, 10) + `}`
 }
+
+// ---------------------------------------------------------------- the server with DEFAULT options
+// No custom eventer (the library's defaultTerminalEvent, made by the default CustomTerminalEventerFunc), default
+// handlers, default key func (variant 0) or only WithKeyFunc (variant 1: keys 99... are invalid): the code paths
+// that every other scenario replaces by its own eventer.  Duplicate-key joins and invalid keys make OnJoinEvent
+// run with an error, parallel disconnects make OnLeaveEvent run - on many connections at once.
+var (
+	defMu   sync.Mutex
+	defAddr = map[int]string{}
+)
+
+func defServer(variant int) string {
+	defMu.Lock()
+	defer defMu.Unlock()
+	if a, ok := defAddr[variant]; ok {
+		return a
+	}
+	for attempt := 0; attempt < 20; attempt++ {
+		l, err := net.Listen("tcp", "127.0.0.1:0")
+		if err != nil {
+			continue
+		}
+		addr := l.Addr().String()
+		l.Close()
+		opts := []service.Option{service.WithHostPorts(addr)}
+		if variant == 1 {
+			opts = append(opts, service.WithKeyFunc(func(m *service.Message) (string, bool) {
+				ph := m.JTMessage.Header.TerminalPhoneNo
+				return ph, !strings.HasPrefix(strings.TrimLeft(ph, "0"), "99")
+			}))
+		}
+		g := service.New(opts...)
+		go g.Run()
+		for i := 0; i < 200; i++ {
+			c, err := net.DialTimeout("tcp", addr, 200*time.Millisecond)
+			if err == nil {
+				c.Close()
+				defAddr[variant] = addr
+				return addr
+			}
+			time.Sleep(5 * time.Millisecond)
+		}
+	}
+	return ""
+}
+
+func runDefault(seed int64, nconn, ms, variant int) string {
+	addr := defServer(variant)
+	if addr == "" {
+		return `{"DEF":"no server"}`
+	}
+	rng := rand.New(rand.NewSource(seed))
+	deadline := time.Now().Add(time.Duration(ms) * time.Millisecond)
+	var wg sync.WaitGroup
+	var lives int64
+	for i := 0; i < nconn; i++ {
+		wg.Add(1)
+		go func(i int, r *rand.Rand) {
+			defer wg.Done()
+			for time.Now().Before(deadline) {
+				// few keys: most first messages meet a key that is online (refused: OnJoinEvent with an error)
+				phone := strconv.Itoa(500000 + int(seed%1000)*10 + r.Intn(3))
+				if variant == 1 && r.Intn(4) == 0 {
+					phone = "99" + strconv.Itoa(r.Intn(50)) // invalid key
+				}
+				t, err := DialTerm(addr, phone)
+				if err != nil {
+					return
+				}
+				go func() {
+					for range t.Frames {
+					}
+				}()
+				for k := 0; k < 1+r.Intn(3); k++ {
+					t.Send(0x0002, nil)
+					time.Sleep(time.Duration(r.Intn(600)) * time.Microsecond)
+				}
+				if r.Intn(2) == 0 {
+					t.Reset()
+				} else {
+					t.Close()
+				}
+				atomic.AddInt64(&lives, 1)
+				time.Sleep(time.Duration(r.Intn(400)) * time.Microsecond)
+			}
+		}(i, rand.New(rand.NewSource(rng.Int63())))
+	}
+	wg.Wait()
+	time.Sleep(20 * time.Millisecond)
+	return `{"DEF":"ok","Lives":` + strconv.FormatInt(lives, 10) + `}`
+}
